@@ -156,6 +156,101 @@ pub fn build_workload(seed: u64, run: u64, tier: &str, samples: &Samples) -> Sce
     }
 }
 
+/// Generated exhaustive workloads come first; the last indices of the exhaustive range are
+/// the real sample objects (raw and re-laid-out), each with a realistic query set.
+pub fn generated_exhaustive(tier: &str) -> u64 {
+    let scale = std::env::var("ELFSIM_SCALE")
+        .ok()
+        .and_then(|s| s.parse::<f64>().ok())
+        .unwrap_or(1.0);
+    ((if tier == "thorough" { 100_000.0 } else { 4_000.0 }) * scale).ceil() as u64
+}
+
+pub fn sample_workloads(samples: &Samples) -> u64 {
+    (samples.raw.len() + samples.relaid.len()) as u64
+}
+
+pub fn sample_workload_index(run: u64, tier: &str, samples: &Samples) -> Option<usize> {
+    let g = generated_exhaustive(tier);
+    if run >= g && run < g + sample_workloads(samples) {
+        Some((run - g) as usize)
+    } else {
+        None
+    }
+}
+
+pub fn build_sample_workload(seed: u64, run: u64, tier: &str, samples: &Samples, i: usize) -> Scenario {
+    let (name, bytes, relaid) = if i < samples.raw.len() {
+        (samples.raw[i].0.clone(), samples.raw[i].1.clone(), false)
+    } else {
+        let j = i - samples.raw.len();
+        (samples.relaid[j].0.clone(), samples.relaid[j].1.clone(), true)
+    };
+    let model = Model::of(&bytes);
+    // the globals, name lookups, every section's data, typed views where the type fits,
+    // every PT_NOTE segment; then the multi-range accessors once more
+    let mut ops: Vec<Op> = vec![
+        Op::ShdrsWithStrtab,
+        Op::SymbolTable,
+        Op::DynSymTable,
+        Op::Dynamic,
+        Op::SymVer,
+        Op::ByName(".dynsym".into()),
+        Op::ByName(".absent".into()),
+    ];
+    for s in model.shdrs.iter().take(40) {
+        ops.push(Op::SectionData(*s));
+        match s.typ {
+            crate::hdr::SHT_STRTAB => ops.push(Op::AsStrtab(*s)),
+            crate::hdr::SHT_NOTE => ops.push(Op::AsNotes(*s)),
+            crate::hdr::SHT_REL => ops.push(Op::AsRels(*s)),
+            crate::hdr::SHT_RELA => ops.push(Op::AsRelas(*s)),
+            _ => {}
+        }
+    }
+    for p in model.phdrs.iter().filter(|p| p.typ == crate::hdr::PT_NOTE) {
+        ops.push(Op::SegNotes(*p));
+    }
+    ops.push(Op::SymVer);
+    ops.push(Op::SymbolTable);
+    ops.push(Op::DynSymTable);
+    let run_seed = mix(mix(seed, prop_id("C17") ^ 0x5a3e), run);
+    let len = bytes.len() as u64;
+    Scenario {
+        prop: "C17".into(),
+        seed,
+        run,
+        tier: tier.to_string(),
+        spec: Spec::Any,
+        durable_len: bytes.len(),
+        recipe: J::obj()
+            .with("source", J::s(if relaid { "sample-relaid-headers-first" } else { "sample" }))
+            .with("name", J::Str(name))
+            .with("len", J::u(len))
+            .with("class_sig", J::u(0x6000_0000_0000 | i as u64)),
+        image: bytes,
+        suffix: Vec::new(),
+        ops: ops
+            .into_iter()
+            .enumerate()
+            .map(|(k, op)| crate::ops::OpRec {
+                id: (k + 1) as u32,
+                op,
+            })
+            .collect(),
+        reader: ReaderCfg {
+            run_seed,
+            profile: Profile::FULL,
+            init_pos: run % (len + 6),
+            overrides: Vec::new(),
+            heal_at_epilogue: false,
+            clean_after_failure: false,
+        },
+        epilogue: true,
+        mode: "single-fault/sample".into(),
+    }
+}
+
 /// C17 oracle: judge a faulted run against the baseline run of the same workload.
 pub fn check_c17(sc: &Scenario, base: &StreamRun, run: &StreamRun) -> Option<Violation> {
     let first = check_c17_with(sc, run, &|st: &StepRec| match base.steps.get(st.op_index) {
@@ -510,11 +605,21 @@ pub fn run_exhaustive(
     pairs: bool,
     rep: &mut Report,
 ) -> C17Outcome {
-    let wl = build_workload(seed, run, tier, samples);
+    let wl = match sample_workload_index(run, tier, samples) {
+        Some(i) => build_sample_workload(seed, run, tier, samples, i),
+        None => build_workload(seed, run, tier, samples),
+    };
     let base_sc = baseline_of(&wl);
     let base = execute(&base_sc);
     rep.evaluations += 1;
     rep.add("workloads", 1);
+    if wl.mode == "single-fault/sample" {
+        rep.add("sample_object_workloads", 1);
+        rep.add("sample_object_baseline_io_events", base.events.len() as u64);
+        if std::env::var("ELFSIM_DEBUG").is_ok() {
+            eprintln!("sample wl run={} ops={} events={} opened={} gate={}", run, wl.ops.len(), base.events.len(), base.opened, gate_ok(&base_sc, &base));
+        }
+    }
     if base.opened {
         rep.add("workloads_opened", 1);
     }
